@@ -211,6 +211,24 @@ class Topology(ABC):
                  etype=ElementType.NEW, ntype=ntype, **kwargs)
         return n
 
+    def _disconnect_interfaces(self, interfaces):
+        """
+        Disconnect each of these interfaces and each of their sub-interfaces from the network service
+        it is connected to, removing the ServicePort and the link created for the connection.
+        :param interfaces:
+        :return:
+        """
+        for i in interfaces:
+            for ii in (i, *i.interface_list):
+                # disconnect if connected to a network service
+                peers = ii.get_peers(itype=InterfaceType.ServicePort)
+                if peers:
+                    if len(peers) == 1:
+                        # disconnect from its parent service
+                        self.get_parent_element(peers[0]).disconnect_interface(ii)
+                    else:
+                        raise TopologyException(f'Interface {ii.name} has more than one peer, this is a model error.')
+
     def remove_node(self, name: str):
         """
         Remove node and all its components, its interfaces and interfaces of components.
@@ -220,15 +238,7 @@ class Topology(ABC):
         """
         if name not in self.nodes.keys():
             raise TopologyException(f'Node {name} is not in this topology.')
-        for i in self.nodes[name].interface_list:
-            # disconnect if connected to a network service
-            peers = i.get_peers(itype=InterfaceType.ServicePort)
-            if peers:
-                if len(peers) == 1:
-                    # disconnect from its parent service
-                    self.get_parent_element(peers[0]).disconnect_interface(i)
-                else:
-                    raise TopologyException(f'Interface {i.name} has more than one peer, this is a model error.')
+        self._disconnect_interfaces(self.nodes[name].interface_list)
 
         self.graph_model.remove_network_node_with_components_nss_cps_and_links(
             node_id=self._get_node_by_name(name=name).node_id)
